@@ -196,7 +196,9 @@ class VoronoiFPS(GreedySelector):
                 else:
                     top_fraction = self.full_fraction
 
-            self.full_fraction = lower_fraction
+            # the stored switching point has to be accepted by the validation below
+            # when the selector is fitted again; the bisection can end at lower == 0
+            self.full_fraction = lower_fraction if lower_fraction > 0 else top_fraction
         else:
             if isinstance(self.full_fraction, numbers.Real):
                 if not 0 < self.full_fraction <= 1:
